@@ -26,6 +26,7 @@ RULE = (
 )
 ASSUMPTIONS = ["expected highlight language = first whitespace-separated word of markdown_it.common.utils.unescapeAll(info).strip() (unescaping itself is C09's business)"]
 
+LEFTOVERS = "see www.a.bc </a> <a href=x> http://u.v *s **t [w `k \"q 'r ~~z <b"
 CTXS = {
     "head": ("## {}", "<h2>{}</h2>\n"),
     "li": ("- {}", "<ul>\n<li>{}</li>\n</ul>\n"),
@@ -33,6 +34,12 @@ CTXS = {
     "bq": ("> {}", "<blockquote>\n<p>{}</p>\n</blockquote>\n"),
     "cell": ("| {} |\n|---|\n", "<table>\n<thead>\n<tr>\n<th>{}</th>\n</tr>\n</thead>\n</table>\n"),
     "li_bq": ("- > {}", "<ul>\n<li>\n<blockquote>\n<p>{}</p>\n</blockquote>\n</li>\n</ul>\n"),
+    # the same text after / next to another inline block full of unfinished business (a stray closing tag, an unclosed one, open
+    # emphasis, bracket, backtick, quote): nothing of it may carry over into the next inline block
+    "sib_para": (LEFTOVERS + "\n\n{}", "<p>{}</p>\n", "suffix"),
+    "sib_head": (LEFTOVERS + "\n\n## {}", "<h2>{}</h2>\n", "suffix"),
+    "sib_item": ("- " + LEFTOVERS + "\n- {}", "<li>{}</li>\n</ul>\n", "suffix"),
+    "sib_cell": ("| " + LEFTOVERS.replace("`", "") + " | {} |\n|---|---|\n", "<th>{}</th>\n</tr>\n</thead>\n</table>\n", "suffix"),
 }
 TCONFS = [{"preset": "commonmark", "enable": ["table", "strikethrough"]}, {"preset": "js-default", "options": {"xhtmlOut": False}},
           {"preset": "js-default", "options": {"typographer": True}}, {"preset": "gfm-like", "stub_linkify": True}]
@@ -92,13 +99,16 @@ def embed_case(ctx, case, count=True):
         return None
     if not (len(base) == 3 and base[0].type == "paragraph_open" and base[1].content == t):
         return None
-    if cn in ("li", "ol", "bq", "li_bq") and not t[0].isalnum():
+    if cn in ("li", "ol", "bq", "li_bq", "sib_item") and not t[0].isalnum():
         return None
-    if cn == "head" and t.endswith("#"):
+    if cn in ("head", "sib_head") and t.endswith("#"):
         return None
-    if cn == "cell" and (re.search(r"[|\\`]", t) or "table" not in md.get_active_rules()["block"]):
+    if cn == "sib_para" and not t[0].isalnum():
+        return None   # (must not be read as a block start or a setext underline after the first paragraph)
+    if cn in ("cell", "sib_cell") and (re.search(r"[|\\`]", t) or "table" not in md.get_active_rules()["block"]):
         return None
-    tm, frame = CTXS[cn]
+    tm, frame = CTXS[cn][:2]
+    suffix = len(CTXS[cn]) > 2
     src = tm.format(t)
     try:
         toks = md.parse(src)
@@ -111,6 +121,8 @@ def embed_case(ctx, case, count=True):
         if sum(1 for c in walk(base[1].children) if c.type != "text") >= 2:
             ctx.nontrivial("embed", cn, C.conf_id(case["conf"]), t)
     inl = [x for x in toks if x.type == "inline"]
+    if suffix:
+        inl = inl[-1:]
     if len(inl) != 1 or inl[0].content != t:
         return f"embed:{cn}:content", f"inline tokens {[x.content for x in inl]!r} for text {t!r} in {src!r}"
     d = first_diff(sd(inl[0].children), sd(base[1].children))
@@ -119,8 +131,10 @@ def embed_case(ctx, case, count=True):
     want = frame.format(refh)
     if md.options.get("xhtmlOut") is False:
         pass
+    if suffix and html.endswith(want):
+        return "ok"
     if html != want:
-        return f"embed:{cn}:html-differs", f"{html!r} != {want!r}"
+        return f"embed:{cn}:html-differs", f"{html[-len(want) - 40:] if suffix else html!r} != {want!r}"
     return "ok"
 
 
